@@ -144,7 +144,7 @@ theorem SharedWF.get {sh : List (Str × List (Str × Sub))} (h : SharedWF sh) {g
     (hm : assocGet sh g = some m) : (m.map (·.1)).Nodup :=
   h.members (g, m) (assocGet_mem _ _ _ hm)
 
-theorem sharedAdd_ok (sh : List (Str × List (Str × Sub))) (g c : Str) (s : Sub) (h : SharedWF sh) :
+theorem sharedAdd_ok_cnt (sh : List (Str × List (Str × Sub))) (g c : Str) (s : Sub) (h : SharedWF sh) :
     SharedWF (sharedAdd sh g c s) ∧
       (sharedLen (sharedAdd sh g c s) : Int) = sharedLen sh + (if (!(sharedGet sh g c).isSome) = true then 1 else 0) := by
   unfold sharedAdd sharedGet
@@ -180,7 +180,7 @@ theorem sharedAdd_ok (sh : List (Str × List (Str × Sub))) (g c : Str) (s : Sub
       have h2 := length_assocSet m c s
       cases hc : (assocGet m c).isSome <;> simp [hc] at h2 ⊢ <;> omega
 
-theorem sharedDel_ok (sh : List (Str × List (Str × Sub))) (g c : Str) (h : SharedWF sh) :
+theorem sharedDel_ok_cnt (sh : List (Str × List (Str × Sub))) (g c : Str) (h : SharedWF sh) :
     SharedWF (sharedDel sh g c) ∧
       (sharedLen (sharedDel sh g c) : Int) = sharedLen sh - (if (sharedGet sh g c).isSome = true then 1 else 0) := by
   unfold sharedDel sharedGet
@@ -260,7 +260,7 @@ theorem cnt_putNode (ns : List Node) (n n' : Node) (hnd : (ns.map (·.path)).Nod
       rw [cnt_cons, cnt_cons]
       omega
 
-theorem mem_putNode (ns : List Node) (n m : Node) (h : m ∈ putNode ns n) : m = n ∨ m ∈ ns := by
+theorem mem_putNode_cnt (ns : List Node) (n m : Node) (h : m ∈ putNode ns n) : m = n ∨ m ∈ ns := by
   unfold putNode at h
   obtain ⟨m0, hm0, he⟩ := List.mem_map.mp h
   split at he
@@ -269,7 +269,7 @@ theorem mem_putNode (ns : List Node) (n m : Node) (h : m ∈ putNode ns n) : m =
 
 theorem NodesWF.putNode {ns : List Node} (h : NodesWF ns) (n : Node) (hn : NodeWF n) : NodesWF (putNode ns n) :=
   ⟨pathsOK_putNode ns n h.paths, fun m hm => by
-    rcases mem_putNode ns n m hm with e | e
+    rcases mem_putNode_cnt ns n m hm with e | e
     · exact e ▸ hn
     · exact h.nodes m e⟩
 
@@ -353,7 +353,7 @@ theorem subscribe_ok (x : Index) (cid : Str) (sb : Sub) (h : NodesWF x.nodes) :
     · exact ⟨h, by simp⟩
     · rename_i n hn
       have hnw := hns.nodes n (getNode_mem hn)
-      obtain ⟨hsw, hsl⟩ := sharedAdd_ok n.shared group cid sb hnw.shared
+      obtain ⟨hsw, hsl⟩ := sharedAdd_ok_cnt n.shared group cid sb hnw.shared
       have hput := cnt_putNode ns n { n with shared := sharedAdd n.shared group cid sb } hns.paths.1
         (by show getNode ns n.path = some n; rw [getNode_path hn]; exact hn)
       refine ⟨hns.putNode _ ⟨hnw.subs, hsw⟩, ?_⟩
@@ -379,7 +379,7 @@ theorem subscribe_ok (x : Index) (cid : Str) (sb : Sub) (h : NodesWF x.nodes) :
       have hc' : cnt ns2 = cnt x.nodes := hc
       cases hs : (assocGet n.subs cid).isSome <;> simp [hs] at hl ⊢ <;> omega
 
-theorem seek_some {ns : List Node} {p : Path} {n : Node} (h : seek ns p = some n) : getNode ns p = some n := by
+theorem seek_some_cnt {ns : List Node} {p : Path} {n : Node} (h : seek ns p = some n) : getNode ns p = some n := by
   unfold seek at h
   split at h
   · exact h
@@ -391,42 +391,39 @@ theorem unsubscribe_ok (x : Index) (f cid : Str) (h : NodesWF x.nodes) :
   unfold unsubscribe
   extract_lets ls share p group
   split
-  · split
-    · exact ⟨h, by simp⟩
-    · rename_i n hs
-      have hn := seek_some hs
-      have hnw := h.nodes n (getNode_mem hn)
-      obtain ⟨hsw, hsl⟩ := sharedDel_ok n.shared group cid hnw.shared
-      have hput := cnt_putNode x.nodes n { n with shared := sharedDel n.shared group cid } h.paths.1
-        (by show getNode x.nodes n.path = some n; rw [getNode_path hn]; exact hn)
-      have hnsw : NodesWF (putNode x.nodes { n with shared := sharedDel n.shared group cid }) :=
-        h.putNode _ ⟨hnw.subs, hsw⟩
-      obtain ⟨ht, htc⟩ := trim_ok _ p p.length hnsw
-      refine ⟨ht, ?_⟩
-      show (cnt (trim (putNode x.nodes { n with shared := sharedDel n.shared group cid }) p p.length) : Int) =
-        (cnt x.nodes : Int) - (if (sharedGet n.shared group cid).isSome = true then 1 else 0)
-      rw [htc]
-      unfold nodeCount at hput
-      simp only [] at hput
-      omega
-  · split
-    · exact ⟨h, by simp⟩
-    · rename_i n hs
-      have hn := seek_some hs
-      have hnw := h.nodes n (getNode_mem hn)
-      have hput := cnt_putNode x.nodes n { n with subs := assocDel n.subs cid } h.paths.1
-        (by show getNode x.nodes n.path = some n; rw [getNode_path hn]; exact hn)
-      have hnsw : NodesWF (putNode x.nodes { n with subs := assocDel n.subs cid }) :=
-        h.putNode _ ⟨assocDel_keys_nodup _ _ hnw.subs, hnw.shared⟩
-      obtain ⟨ht, htc⟩ := trim_ok _ p p.length hnsw
-      refine ⟨ht, ?_⟩
-      show (cnt (trim (putNode x.nodes { n with subs := assocDel n.subs cid }) p p.length) : Int) =
-        (cnt x.nodes : Int) - (if (assocGet n.subs cid).isSome = true then 1 else 0)
-      rw [htc]
-      unfold nodeCount at hput
-      simp only [] at hput
-      have hl := length_assocDel n.subs cid hnw.subs
-      cases hs : (assocGet n.subs cid).isSome <;> simp [hs] at hl ⊢ <;> omega
+  · exact ⟨h, by simp⟩
+  split
+  · exact ⟨h, by simp⟩
+  rename_i n hs
+  have hn := seek_some_cnt hs
+  have hnw := h.nodes n (getNode_mem hn)
+  split
+  · obtain ⟨hsw, hsl⟩ := sharedDel_ok_cnt n.shared group cid hnw.shared
+    have hput := cnt_putNode x.nodes n { n with shared := sharedDel n.shared group cid } h.paths.1
+      (by show getNode x.nodes n.path = some n; rw [getNode_path hn]; exact hn)
+    have hnsw : NodesWF (putNode x.nodes { n with shared := sharedDel n.shared group cid }) :=
+      h.putNode _ ⟨hnw.subs, hsw⟩
+    obtain ⟨ht, htc⟩ := trim_ok _ p p.length hnsw
+    refine ⟨ht, ?_⟩
+    show (cnt (trim (putNode x.nodes { n with shared := sharedDel n.shared group cid }) p p.length) : Int) =
+      (cnt x.nodes : Int) - (if (sharedGet n.shared group cid).isSome = true then 1 else 0)
+    rw [htc]
+    unfold nodeCount at hput
+    simp only [] at hput
+    omega
+  · have hput := cnt_putNode x.nodes n { n with subs := assocDel n.subs cid } h.paths.1
+      (by show getNode x.nodes n.path = some n; rw [getNode_path hn]; exact hn)
+    have hnsw : NodesWF (putNode x.nodes { n with subs := assocDel n.subs cid }) :=
+      h.putNode _ ⟨assocDel_keys_nodup _ _ hnw.subs, hnw.shared⟩
+    obtain ⟨ht, htc⟩ := trim_ok _ p p.length hnsw
+    refine ⟨ht, ?_⟩
+    show (cnt (trim (putNode x.nodes { n with subs := assocDel n.subs cid }) p p.length) : Int) =
+      (cnt x.nodes : Int) - (if (assocGet n.subs cid).isSome = true then 1 else 0)
+    rw [htc]
+    unfold nodeCount at hput
+    simp only [] at hput
+    have hl := length_assocDel n.subs cid hnw.subs
+    cases hs : (assocGet n.subs cid).isSome <;> simp [hs] at hl ⊢ <;> omega
 
 /-- a particle is rewritten in a field other than `subs` / `shared` -/
 theorem putSame_ok (ns : List Node) (n n' : Node) (h : NodesWF ns) (hg : getNode ns n'.path = some n)
@@ -473,7 +470,7 @@ theorem inlineUnsubscribe_ok (x : Index) (id : Nat) (f : Str) (h : NodesWF x.nod
   split
   · exact ⟨h, rfl⟩
   · rename_i n hs
-    have hn := seek_some hs
+    have hn := seek_some_cnt hs
     have hg : getNode x.nodes n.path = some n := by rw [getNode_path hn]; exact hn
     extract_lets existed inl ns
     obtain ⟨a, b⟩ := putSame_ok x.nodes n { n with inline := inl } h hg rfl rfl
